@@ -282,6 +282,25 @@ def judge(case):
             want = head + [('    ' + c if c.strip() else '') for c in case['contents']] + ['']
             if lines != want and not (not head and not case['contents'] and lines == ['']):
                 bad('section', f'{lines} expected {want}')
+        elif kind == 'sharing':
+            from dznpy.scoping import NamespaceIds  # pylint: disable=import-outside-toplevel
+            makers = {'struct': lambda n: G.Struct(n), 'class': lambda n: G.Class(n),
+                      'namespace': lambda n: G.Namespace(NamespaceIds([n]))}
+            first = makers[case['first']]('A')
+            if case['how'] == 'append':
+                first.contents.append('int from_a;')
+            else:
+                blk = first.contents
+                blk += 'int from_a;'
+            second = makers[case['second']]('B')
+            if 'from_a' in str(second) or second.contents.lines:
+                bad('contents-shared-between-objects', f'second renders {str(second)!r}')
+            second.contents.append('int from_b;')
+            if 'from_b' in str(first):
+                bad('contents-shared-between-objects', f'first renders {str(first)!r}')
+            third = makers[case['first']]('C')
+            if third.contents.lines:
+                bad('contents-shared-between-objects', f'third renders {str(third)!r}')
         elif kind == 'misc':
             from dznpy.scoping import NamespaceIds  # pylint: disable=import-outside-toplevel
             incs = list(case['includes'])
@@ -350,6 +369,9 @@ def other_cases():
             yield {'kind': 'section', 'spec': spec, 'contents': body}
     for incs in ([], ['string'], ['dzn/pump.hh', 'a/b.h', 'x']):
         yield {'kind': 'misc', 'includes': incs}
+    for first, second, how in itertools.product(('struct', 'class', 'namespace'), ('struct', 'class', 'namespace'),
+                                                ('append', 'iadd')):
+        yield {'kind': 'sharing', 'first': first, 'second': second, 'how': how}
 
 
 # ---- compile --------------------------------------------------------------------------------
